@@ -104,6 +104,10 @@ impl Shell {
             if let Some(job) = self.jobs.get_mut(&i) {
                 if job.gid == gid {
                     job.pids_stopped.remove(&pid);
+                    // one running member is enough for the job to be running
+                    if !job.all_members_stopped() {
+                        job.status = "Running".to_string();
+                    }
                     idx_found = i;
                     break;
                 }
